@@ -223,6 +223,51 @@ def mods():
     return _modules
 
 
+# ---------------------------------------------------------------------------- seams, bound by identity
+# A seam replaces a standard-library object *as the module under test sees it*.  The module may hold it under any name
+# (`import subprocess`, `from subprocess import run as run_process`, `import datetime as dt`, `from datetime import datetime`):
+# every module-level binding whose value IS one of the real objects is replaced by the corresponding fake.
+import datetime as _datetime_mod
+import time as _time_mod
+_REAL = {
+    "subprocess": subprocess, "subprocess.run": subprocess.run, "subprocess.Popen": subprocess.Popen,
+    "os": os, "signal": signal, "time": _time_mod, "time.time": _time_mod.time,
+    "datetime": _datetime_mod, "datetime.datetime": _datetime_mod.datetime,
+}
+for _n in ("waitpid", "getpgid", "killpg", "kill", "pipe", "read", "write", "close"):
+    _REAL["os." + _n] = getattr(os, _n)
+for _n in ("signal", "set_wakeup_fd", "pthread_sigmask"):
+    _REAL["signal." + _n] = getattr(signal, _n)
+
+
+def bind(module, repl, required=True, what="seam"):
+    """repl: list of (real object, fake).  Returns patch triples for every binding in `module` that is one of the real objects."""
+    out = []
+    for name, val in list(vars(module).items()):
+        for real, fake in repl:
+            if val is real:
+                out.append((module, name, fake))
+                break
+    if required and not out:
+        raise vkmod.HarnessError("%s: %s does not refer to any of the objects the seam replaces" % (what, module.__name__))
+    return out
+
+
+def facade_repl(prefix, facade):
+    """(real, fake) pairs for a module facade: the module object itself and each overridden function."""
+    out = [(_REAL[prefix], facade)]
+    for n in facade.__dict__["_over"]:
+        key = "%s.%s" % (prefix, n)
+        if key in _REAL:
+            out.append((_REAL[key], getattr(facade, n)))
+    return out
+
+
+def git_seam(git):
+    """Patch triples that make conductor.utils.git talk to `git` (an object with .run(argv, **kw))."""
+    return bind(mods()["cgit"], facade_repl("subprocess", vkmod.Facade(subprocess, {"run": git.run})), what="git seam")
+
+
 @contextlib.contextmanager
 def patched(pairs):
     saved = []
@@ -313,13 +358,10 @@ def run_cli(argv, cwd, *, vk=None, git=None, clock=None, env=None, tracer=None, 
     pairs = []
     if vk is not None:
         osf = vkmod.make_os_facade()
-        pairs += [
-            (m["rte"], "subprocess", vkmod.make_subprocess_facade()),
-            (m["rte"], "os", osf),
-            (m["sigchld"], "os", osf),
-            (m["sigchld"], "signal", vkmod.make_signal_facade()),
-            (m["executor"], "os", osf),
-        ]
+        os_repl = facade_repl("os", osf)
+        pairs += bind(m["rte"], facade_repl("subprocess", vkmod.make_subprocess_facade()) + os_repl, what="process seam")
+        pairs += bind(m["sigchld"], os_repl + facade_repl("signal", vkmod.make_signal_facade()), what="SIGCHLD seam")
+        pairs += bind(m["executor"], os_repl, what="process-group seam")
         if not real_processes:
             pairs += [
                 (os, "waitpid", _escape("os.waitpid")),
@@ -329,10 +371,10 @@ def run_cli(argv, cwd, *, vk=None, git=None, clock=None, env=None, tracer=None, 
                 (subprocess, "_fork_exec", _escape("fork_exec")),
             ]
     if git is not None:
-        pairs.append((m["cgit"], "subprocess", vkmod.Facade(subprocess, {"run": git.run})))
+        pairs += git_seam(git)
     if clock is not None:
         tf = vkmod.Facade(__import__("time"), {"time": clock.time})
-        pairs += [(m["vindex"], "time", tf), (m["executor"], "time", tf)]
+        pairs += bind(m["vindex"], facade_repl("time", tf), what="clock seam") + bind(m["executor"], facade_repl("time", tf), what="clock seam")
         import datetime as _dt
 
         class _FixedDateTime(_dt.datetime):
@@ -340,7 +382,7 @@ def run_cli(argv, cwd, *, vk=None, git=None, clock=None, env=None, tracer=None, 
             def now(cls, tz=None):
                 return _dt.datetime.utcfromtimestamp(clock.now)
 
-        pairs.append((m["carchive"], "datetime", vkmod.Facade(_dt, {"datetime": _FixedDateTime})))
+        pairs += bind(m["carchive"], facade_repl("datetime", vkmod.Facade(_dt, {"datetime": _FixedDateTime})), what="archive clock seam")
 
     old_cwd = os.getcwd()
     old_argv = sys.argv
